@@ -409,7 +409,7 @@ def targeted_cases(ctx):
                     "options": {"seed": rng.choice([0, 7, 4772]), "alpha": rng.choice([None, 2]), "beta": None, "delta": None,
                                 "precision": 0.5, "n_samples": 5, "cat_dissim": cat_dissim, "gamma_cat": True, "gamma_k": True,
                                 "mathet": rng.random() < 0.5, "explicit_separator": False},
-                    "output": rng.choice(["print", "csv", "json"]), "probe": None})
+                    "output": rng.choice(["print", "csv", "json"]), "probe": "cat_dissim" if cat_dissim != "absolute" else None})
     return out
 
 
